@@ -77,6 +77,9 @@ def ele_faults(seg, e, sub_of=None):
             if mn > 1:
                 out.append(('too-short', 'A' * (mn - 1), '4', False))
             out.append(('wrong-class', ('A\x7f' + 'A' * mx)[:max(mn, 2)] if mx >= 2 else '\x7f', '6', False))
+            # a printable character outside the character set of the interchange's version: ^ belongs to the extended set
+            # of 00501 only (injected into 00401 documents only, see cases_for_entry)
+            out.append(('wrong-class-printable', ('A^' + 'A' * mx)[:max(mn, 2)] if mx >= 2 else '^', '6', False))
         elif dt == 'R' or dt[0] == 'N':
             out.append(('too-long', '1' * (mx + 1), '5', False))
             if dt == 'R':
@@ -181,6 +184,12 @@ def observe(d, text=None, exclude=None):
     return pipe.run(text if text is not None else d.text(eol='\n'), sinks=('ack',), exclude=exclude)
 
 
+def _ack_copy(v):
+    """the copy of an offending value in AK404 / IK404: X12 has no escape mechanism, so the characters the acknowledgement
+    itself is written with (~ * : and the repetition separator ^) cannot be carried and are left out"""
+    return ''.join(c for c in v if c not in '~*:^\r\n')
+
+
 def judge(o, d, exp, structural, tag, f):
     """exp = dict(level, code (or None), seg_id, pos, ele, sub, value (or None))"""
     v = []
@@ -252,7 +261,7 @@ def judge(o, d, exp, structural, tag, f):
                     p = s[1].split(':')
                     code = hits[0][1]
                     if p[0] == str(exp['ele']) and (not exp.get('sub') or (len(p) > 1 and p[1] == str(exp['sub']))) and len(s) > 3 and s[3] == code:
-                        if exp.get('value') is None or code not in ('4', '5', '6', '7', '8', '9') or (len(s) > 4 and '*'.join(s[4:]) == exp['value']) or ('*' in exp['value'] or ':' in exp['value'] or '~' in exp['value']):
+                        if exp.get('value') is None or code not in ('4', '5', '6', '7', '8', '9') or '*'.join(s[4:]) == _ack_copy(exp['value']):
                             found = True
             if not found:
                 v.append(('C03|%s|ack-does-not-itemise' % tag, 'no %s/%s line for %r in %r' % (a3, a4, exp, ['*'.join(s) for s in sets[0]])))
@@ -586,6 +595,8 @@ def cases_for_entry(entry, thorough):
     root = G.load(entry[4])
     seen = set()
     for case in _cases_for_entry(root, thorough, seen):
+        if case['kind'] == 'wrong-class-printable' and entry[0] != '00401':
+            continue
         yield case
 
 
@@ -710,7 +721,7 @@ def run(R):
             shards.append((e, ch))
     R.pmap(work, shards)
     R.bounds = {'maps': len(ents), 'injections': total,
-                'catalogue': ['too-long', 'too-long-punctuated (AN)', 'too-long-signed (R)', 'too-short', 'wrong-class', 'impossible-date (month)', 'impossible-date-day', 'impossible-time (hour)', 'impossible-time-minute', 'impossible-time-second', 'outside-code-list', 'outside-external-set (also with all other external sets excluded by option)', 'missing-required',
+                'catalogue': ['too-long', 'too-long-punctuated (AN)', 'too-long-signed (R)', 'too-short', 'wrong-class', 'wrong-class-printable (^ in a 00401 document)', 'impossible-date (month)', 'impossible-date-day', 'impossible-time (hour)', 'impossible-time-minute', 'impossible-time-second', 'outside-code-list', 'outside-external-set (also with all other external sets excluded by option)', 'missing-required',
                               'not-used-filled', 'too-many-elements', 'syntax:<note>', 'unknown-id', 'unknown-id-malformed', 'missing-required-segment', 'beyond-max-use', 'beyond-repeat-interleaved (A, B x max, A, B for same-position sibling loops)',
                               'not-used-segment', 'beyond-repeat (loops)', 'missing-required-loop'],
                 'targets': 'every node x every applicable kind' if R.thorough else 'one node per definition signature per map x every applicable kind'}
